@@ -1,24 +1,35 @@
 (* C12: every configuration (state, call-stack agenda) that any history can reach, at any instant,
-   and what the invariants of ProofsA/B/C give for it and for complete histories. *)
+   destruction with live callbacks included, and what the invariants give for it. *)
 From OlaBase Require Import Bytes.
-From Coq Require Import Sorted.
-From Coq Require Import Permutation.
+From Coq Require Import Sorted Permutation.
 From C12 Require Import Gen Model ProofsT ProofsF ProofsA ProofsB ProofsC ProofsD ProofsR ProofsE.
 Local Open Scope N_scope.
 
 Inductive reachable (max : N) (discov : bool) (ms : list mitem) (ds : list bool)
   : st -> list frame -> Prop :=
 | R_init : reachable max discov ms ds (init max discov ms ds) []
-| R_op s o : reachable max discov ms ds s [] ->
+| R_op s o : reachable max discov ms ds s [] -> h_destroying s = false ->
              reachable max discov ms ds (set_g_trace [] s) [FOp o]
+| R_destroy s : reachable max discov ms ds s [] -> h_destroying s = false ->
+                reachable max discov ms ds (start_destroy s) [FDestroy]
 | R_step s f ag s' ag' : reachable max discov ms ds s (f :: ag) -> step s f ag = (s', ag') ->
                          reachable max discov ms ds s' ag'.
 
+Lemma reach_A2 max discov ms ds s ag : reachable max discov ms ds s ag -> InvA2 s ag.
+Proof.
+  induction 1.
+  - left. split; [reflexivity|]. unfold InvA, AP, init; cbn. repeat split; auto; try lia; intros; lia.
+  - destruct IHreachable as [[_ HA]|[Hd _]]; [|congruence]. left. split; [exact H0|].
+    unfold InvA in *. cbn. exact HA.
+  - destruct IHreachable as [[_ HA]|[Hd _]]; [|congruence]. apply InvA2_destroy; auto.
+  - eapply step_A2; eauto.
+Qed.
 Lemma reach_B max discov ms ds s ag : reachable max discov ms ds s ag -> InvB s.
 Proof.
   induction 1.
   - unfold InvB, init; cbn. auto.
   - unfold InvB in *; cbn. auto.
+  - unfold InvB, start_destroy in *; cbn. auto.
   - eapply step_B; eauto.
 Qed.
 Lemma reach_C max discov ms ds s ag : reachable max discov ms ds s ag -> InvC s.
@@ -26,7 +37,32 @@ Proof.
   induction 1.
   - apply InvC_init.
   - apply InvC_trace; auto.
+  - destruct IHreachable as [? ? ? ? ?]. constructor; cbn; auto.
   - eapply ctrans_C; eauto. eapply step_ctrans; eauto.
+Qed.
+Lemma reach_D max discov ms ds s ag : reachable max discov ms ds s ag -> DI s.
+Proof.
+  induction 1.
+  - apply DI_init.
+  - apply DI_trace; auto.
+  - apply DI_destroy; auto.
+  - eapply step_D; eauto. eapply reach_A2; eauto.
+Qed.
+Lemma reach_R max discov ms ds s ag : reachable max discov ms ds s ag -> RI s.
+Proof.
+  induction 1.
+  - apply RI_init.
+  - apply RI_trace; auto.
+  - unfold RI, start_destroy in *; cbn. auto.
+  - eapply step_R; eauto.
+Qed.
+Lemma reach_E max discov ms ds s ag : reachable max discov ms ds s ag -> EI s ag.
+Proof.
+  induction 1.
+  - apply EI_init.
+  - apply EI_trace; auto.
+  - apply EI_destroy; auto.
+  - eapply step_E; eauto. eapply reach_A2; eauto.
 Qed.
 
 Lemma run_reach max discov ms ds : forall fuel s ag s',
@@ -37,16 +73,40 @@ Proof.
   - destruct ag as [|f ag]; cbn [run] in H; [inversion H; subst; auto|].
     destruct (step s f ag) as [s1 ag1] eqn:E. eapply IH; [|exact H]. eapply R_step; eauto.
 Qed.
-Lemma exec_op_reach max discov ms ds s o s' :
-  reachable max discov ms ds s [] -> exec_op s o = Some s' -> reachable max discov ms ds s' [].
-Proof. unfold exec_op. intros Hr H. eapply run_reach; [|exact H]. apply R_op; auto. Qed.
-Lemma exec_ops_reach max discov ms ds : forall h s s',
-  reachable max discov ms ds s [] -> exec_ops s h = Some s' -> reachable max discov ms ds s' [].
+Lemma run_hd : forall fuel s ag s', run fuel s ag = Some s' -> h_destroying s' = h_destroying s.
 Proof.
-  induction h as [|o h IH]; intros s s' Hr H; cbn [exec_ops] in H.
+  induction fuel as [|k IH]; intros s ag s' H.
+  - destruct ag; cbn in H; [inversion H; subst; auto|discriminate].
+  - destruct ag as [|f ag]; cbn [run] in H; [inversion H; subst; auto|].
+    destruct (step s f ag) as [s1 ag1] eqn:E. rewrite (IH _ _ _ H). eapply step_hd; eauto.
+Qed.
+(* the states between the top-level operations of a history: reachable and not being destroyed *)
+Lemma exec_op_reach max discov ms ds s o s' :
+  reachable max discov ms ds s [] -> h_destroying s = false -> exec_op s o = Some s' ->
+  reachable max discov ms ds s' [] /\ h_destroying s' = false.
+Proof.
+  unfold exec_op. intros Hr Hnd H. split.
+  - eapply run_reach; [|exact H]. apply R_op; auto.
+  - rewrite (run_hd _ _ _ _ H). exact Hnd.
+Qed.
+Lemma exec_ops_reach max discov ms ds : forall h s s',
+  reachable max discov ms ds s [] -> h_destroying s = false -> exec_ops s h = Some s' ->
+  reachable max discov ms ds s' [] /\ h_destroying s' = false.
+Proof.
+  induction h as [|o h IH]; intros s s' Hr Hnd H; cbn [exec_ops] in H.
   - inversion H; subst; auto.
   - destruct (exec_op s o) as [s1|] eqn:E; [|discriminate].
-    eapply IH; [|exact H]. eapply exec_op_reach; eauto.
+    destruct (exec_op_reach _ _ _ _ _ _ _ Hr Hnd E). eapply IH; eauto.
+Qed.
+Lemma history_reach max discov ms ds h f :
+  run_history max discov ms ds h = Some f ->
+  reachable max discov ms ds f [] /\ h_destroying f = true.
+Proof.
+  unfold run_history. destruct (exec_ops (init max discov ms ds) h) as [s|] eqn:E; [|discriminate].
+  unfold destroy_run. intros H.
+  destruct (exec_ops_reach _ _ _ _ _ _ _ (R_init _ _ _ _) eq_refl E) as [Hr Hnd]. split.
+  - eapply run_reach; [|exact H]. apply R_destroy; auto.
+  - rewrite (run_hd _ _ _ _ H). reflexivity.
 Qed.
 
 Lemma exec_op_total s o : exec_op s o <> None.
@@ -58,54 +118,29 @@ Proof.
 Qed.
 Lemma run_history_total max discov ms ds h : run_history max discov ms ds h <> None.
 Proof.
-  unfold run_history. destruct (exec_ops (init max discov ms ds) h) eqn:E; [discriminate|].
-  exfalso; eapply exec_ops_total; eauto.
+  unfold run_history. destruct (exec_ops (init max discov ms ds) h) eqn:E.
+  - unfold destroy_run. apply run_enough. lia.
+  - exfalso; eapply exec_ops_total; eauto.
 Qed.
 
-(* destruction *)
-Lemma count_id_destroyed i q :
-  count_id i (map (fun e : N * list op => mkComp (fst e) K_DESTROYED (mkReply RDM_FAILED_TO_SEND None 0) [] []) q)
-  = count_q i q.
-Proof. induction q as [|e q IH]; cbn [count_id count_q map c_id]; auto. Qed.
-Lemma accepted_destroyed q :
-  accepted_ids (map (fun e : N * list op => mkComp (fst e) K_DESTROYED (mkReply RDM_FAILED_TO_SEND None 0) [] []) q)
-  = map fst q.
-Proof. unfold accepted_ids. induction q as [|e q IH]; cbn; auto. cbn in IH. rewrite IH. auto. Qed.
-
+(* after destruction *)
 Definition final_ok (f : st) : Prop :=
   (forall i, count_id i (g_done f) = if i <? h_next f then 1%nat else O) /\
   StronglySorted N.lt (accepted_ids (g_done f)) /\
   Forall (fun c => c_kind c = K_ANSWERED \/ c_reply c = mkReply RDM_FAILED_TO_SEND None 0) (g_done f) /\
   s_queue f = [].
 
-Lemma destroy_done s :
-  g_done (destroy s) = g_done s ++
-    map (fun e : N * list op => mkComp (fst e) K_DESTROYED (mkReply RDM_FAILED_TO_SEND None 0) [] []) (s_queue s).
-Proof. reflexivity. Qed.
-Lemma destroy_next s : h_next (destroy s) = h_next s.
-Proof. reflexivity. Qed.
-Lemma destroy_queue s : s_queue (destroy s) = [].
-Proof. reflexivity. Qed.
-
-Lemma destroy_C s : InvC s -> final_ok (destroy s).
-Proof.
-  intros [Hcnt Hacc Hso Hb Hk]. unfold final_ok.
-  rewrite destroy_done, destroy_next, destroy_queue.
-  split; [|split; [|split; [|reflexivity]]].
-  - intros i. rewrite count_id_app, count_id_destroyed. apply Hcnt.
-  - rewrite accepted_ids_app, accepted_destroyed, <- Hacc. exact Hso.
-  - apply Forall_app; split.
-    + eapply Forall_impl; [|exact Hk]. cbn. intros c [H|[_ H]]; auto.
-    + apply Forall_forall. intros c Hin. apply in_map_iff in Hin. destruct Hin as (e & He & _).
-      subst c. right. reflexivity.
-Qed.
-
 Lemma history_final max discov ms ds h f :
   run_history max discov ms ds h = Some f -> final_ok f.
 Proof.
-  unfold run_history. destruct (exec_ops (init max discov ms ds) h) as [s|] eqn:E; [|discriminate].
-  intros H; inversion H; subst. apply destroy_C.
-  eapply reach_C. eapply exec_ops_reach; [apply R_init|exact E].
+  intros H. destruct (history_reach _ _ _ _ _ _ H) as [Hr Hd].
+  assert (Hq : s_queue f = []).
+  { destruct (reach_A2 _ _ _ _ _ _ Hr) as [[Hnd _]|(_ & _ & _ & Hend)]; [congruence|].
+    destruct Hend as [(pre & E)|[_ Hq]]; [destruct pre; discriminate|exact Hq]. }
+  destruct (reach_C _ _ _ _ _ _ Hr) as [Hcnt Hacc Hso Hb Hk]. unfold final_ok.
+  split; [|split; [|split; [exact Hk|exact Hq]]].
+  - intros i. specialize (Hcnt i). rewrite Hq in Hcnt. cbn in Hcnt. lia.
+  - rewrite Hq in Hacc. cbn in Hacc. rewrite app_nil_r in Hacc. rewrite <- Hacc. exact Hso.
 Qed.
 
 Lemma reach_once max discov ms ds s ag :
@@ -123,60 +158,22 @@ Lemma reach_paused max discov ms ds s ag :
   reachable max discov ms ds s ag -> h_paused s = negb (s_active s) /\ g_psends s = 0.
 Proof. intros Hr. exact (reach_B _ _ _ _ _ _ Hr). Qed.
 
-(* ---- round 2: one outstanding, own reply / overflow, queue-full bookkeeping, discovery ---- *)
-Lemma reach_A max discov ms ds s ag : reachable max discov ms ds s ag -> InvA s ag.
-Proof.
-  induction 1.
-  - unfold InvA, AP, init; cbn. repeat split; auto; try lia; intros; lia.
-  - unfold InvA in *. cbn. exact IHreachable.
-  - eapply step_A; eauto.
-Qed.
-Lemma reach_D max discov ms ds s ag : reachable max discov ms ds s ag -> DI s.
-Proof.
-  induction 1.
-  - apply DI_init.
-  - apply DI_trace; auto.
-  - eapply step_D; eauto. eapply reach_A; eauto.
-Qed.
-Lemma reach_R max discov ms ds s ag : reachable max discov ms ds s ag -> RI s.
-Proof.
-  induction 1.
-  - apply RI_init.
-  - apply RI_trace; auto.
-  - eapply step_R; eauto.
-Qed.
-Lemma reach_E max discov ms ds s ag : reachable max discov ms ds s ag -> EI s ag.
-Proof.
-  induction 1.
-  - apply EI_init.
-  - apply EI_trace; auto.
-  - eapply step_E; eauto. eapply reach_A; eauto.
-Qed.
-
 Lemma reach_outstanding max discov ms ds s ag :
   reachable max discov ms ds s ag ->
   len (m_out s) + len (m_dout s) <= 1 /\ g_conc s <= 1 /\ g_fatal s = false /\
-  (s_pending s = true <-> m_out s <> []).
+  (h_destroying s = false -> (s_pending s = true <-> m_out s <> [])).
 Proof.
-  intros Hr. destruct (reach_A _ _ _ _ _ _ Hr) as (Hout & Hdout & _ & _ & Hc & Hf).
-  destruct Hout as [(Ho1 & Ho2)|(i0 & cb0 & rest0 & Ho1 & Ho2 & Ho3 & Ho4)];
-  destruct Hdout as [Hd1|(r0 & Hd1 & Hd2 & Hd3)]; try congruence;
-  rewrite ?Ho1, ?Hd1, ?Ho3; cbn; repeat split; auto; try lia; try congruence; intros; congruence.
+  intros Hr. destruct (reach_A2 _ _ _ _ _ _ Hr) as [[Hnd HA]|(Hd & (Hp & Hl & Hc & Hf) & _)].
+  - destruct HA as (Hout & Hdout & _ & _ & Hc & Hf).
+    destruct Hout as [(Ho1 & Ho2)|(i0 & cb0 & rest0 & Ho1 & Ho2 & Ho3 & Ho4)];
+    destruct Hdout as [Hd1|(r0 & Hd1 & Hd2 & Hd3)]; try congruence;
+    rewrite ?Ho1, ?Hd1, ?Ho3; cbn; repeat split; auto; try lia; try congruence; intros; congruence.
+  - repeat split; auto; congruence.
 Qed.
 
-Lemma destroy_D s : DI s -> Forall comp_ok (g_done (destroy s)).
-Proof.
-  intros [Hd _]. rewrite destroy_done. apply Forall_app; split; [exact Hd|].
-  apply Forall_forall. intros c Hin. apply in_map_iff in Hin. destruct Hin as (e & He & _). subst c.
-  unfold comp_ok; cbn. intros Hk; discriminate.
-Qed.
-Lemma history_own max discov ms ds h f :
-  run_history max discov ms ds h = Some f -> Forall comp_ok (g_done f).
-Proof.
-  unfold run_history. destruct (exec_ops (init max discov ms ds) h) as [s|] eqn:E; [|discriminate].
-  intros H; inversion H; subst. apply destroy_D.
-  eapply reach_D. eapply exec_ops_reach; [apply R_init|exact E].
-Qed.
+Lemma reach_own max discov ms ds s ag :
+  reachable max discov ms ds s ag -> Forall comp_ok (g_done s).
+Proof. intros Hr. destruct (reach_D _ _ _ _ _ _ Hr) as [Hd _]. exact Hd. Qed.
 
 Lemma nodup_app_l {A} (a b : list A) : NoDup (a ++ b) -> NoDup a.
 Proof.
